@@ -158,17 +158,20 @@ class Inliner:
                 n.id = mapping[n.id]
         return e
 
-    def text(self, e, canon=True, roles=None, keep=()):
+    def tree(self, e, canon=True, roles=None, keep=()):
         """keep: names that must not be inlined (accumulators the rule wants to see by role)."""
         x = self.expand(e, _stack=tuple(keep) + tuple(roles or ()))
         if canon:
             x = self.canon(x, roles)
-        return norm_text(x)
+        return x
+
+    def text(self, e, canon=True, roles=None, keep=()):
+        return norm_text(self.tree(e, canon, roles, keep))
 
     def same(self, e, wanted, roles=None, keep=(), subst=()):
         """True when the inlined, canonically renamed expression is the same syntax tree as one of the `wanted` source
         texts (parentheses that do not change the tree, spacing and quote style are immaterial; precedence is not)."""
-        got = self.text(e, roles=roles, keep=keep)
+        got = ast.unparse(self.tree(e, True, roles, keep))
         return any(tree_key(got, subst) == tree_key(w, subst) for w in ([wanted] if isinstance(wanted, str) else wanted))
 
     def returns(self):
